@@ -257,7 +257,7 @@ the result of the cryptographic verification as an *uninterpreted* input. -/
 structure RecvEv where
   secure : Bool            -- payload is a SecureAPDU
   group : Bool             -- destination is a group address
-  keyed : Bool             -- … with a (truthy) key in the group key table
+  keyed : Bool             -- secured frame: a truthy key for dst; plain frame: dst is in the key table
   svcOk : Bool             -- scf.service is S_A_DATA
   toolSb : Bool            -- scf.system_broadcast or scf.tool_access
   src : Nat
@@ -305,7 +305,8 @@ def evOf (E : BlockFn) (ds : DS) (f : Frame) (innerOk : Bytes → Bool) : RecvEv
       toolSb := scf.systemBroadcast || scf.toolAccess, src := f.src, seq := Bytes.toNatBE d.seq,
       verify := v, innerOk := innerOf innerOk v }
   | _ =>
-    { secure := false, group := f.group, keyed := key.isSome, svcOk := false, toolSb := false,
+    -- the plain branch tests membership (`dst_addr in self._group_key_table`), not truthiness
+    { secure := false, group := f.group, keyed := (ds.keys.lookup f.dst).isSome, svcOk := false, toolSb := false,
       src := f.src, seq := 0, verify := .error .mac, innerOk := false }
 
 /-- `DataSecure.received_cemi(cemi_data)`. -/
